@@ -74,32 +74,6 @@ def stmtPrefix.compact : TokStream :=
 def stmtPrefix.normalText : Bytes := [97, 10, 45, 98, 10]
 def stmtPrefix.compactText : Bytes := [97, 45, 98]
 
-/-- real lexer, file mode, on `a b` -/
-def compactGlue.src : TokStream :=
-  { toks := [
-    { type := .IDENT, lit := [97], posBefore := 0, posAfter := 1, hadWs := false, hadNl := false, lastNl := 0, num := .na },
-    { type := .IDENT, lit := [98], posBefore := 1, posAfter := 3, hadWs := true, hadNl := false, lastNl := 0, num := .na },
-    { type := .EOF, lit := [], posBefore := 3, posAfter := 4, hadWs := false, hadNl := false, lastNl := 0, num := .na } ],
-    eof := { type := .EOF, lit := [], posBefore := 4, posAfter := 5, hadWs := false, hadNl := false, lastNl := 0, num := .na }, inputLen := 3 }
-
-/-- real lexer on the normal-mode text printed for it (hex 610a620a) -/
-def compactGlue.normal : TokStream :=
-  { toks := [
-    { type := .IDENT, lit := [97], posBefore := 0, posAfter := 1, hadWs := false, hadNl := false, lastNl := 0, num := .na },
-    { type := .IDENT, lit := [98], posBefore := 1, posAfter := 3, hadWs := true, hadNl := true, lastNl := 2, num := .na },
-    { type := .EOF, lit := [], posBefore := 3, posAfter := 5, hadWs := true, hadNl := true, lastNl := 4, num := .na } ],
-    eof := { type := .EOF, lit := [], posBefore := 5, posAfter := 6, hadWs := false, hadNl := false, lastNl := 4, num := .na }, inputLen := 4 }
-
-/-- real lexer on the compact-mode text printed for it (hex 6162) -/
-def compactGlue.compact : TokStream :=
-  { toks := [
-    { type := .IDENT, lit := [97, 98], posBefore := 0, posAfter := 2, hadWs := false, hadNl := false, lastNl := 0, num := .na },
-    { type := .EOF, lit := [], posBefore := 2, posAfter := 3, hadWs := false, hadNl := false, lastNl := 0, num := .na } ],
-    eof := { type := .EOF, lit := [], posBefore := 3, posAfter := 4, hadWs := false, hadNl := false, lastNl := 0, num := .na }, inputLen := 2 }
-
-def compactGlue.normalText : Bytes := [97, 10, 98, 10]
-def compactGlue.compactText : Bytes := [97, 98]
-
 /-- real lexer, file mode, on `a + (b + c)` -/
 def assocRight.src : TokStream :=
   { toks := [
@@ -146,13 +120,6 @@ theorem witness_statement_starts_with_prefix_operator :
     (valid (parseProgram stmtPrefix.src 40)).isSome = true
     ∧ (valid (parseProgram stmtPrefix.normal 40)).isSome = true
     ∧ (progOf stmtPrefix.src).length = 2 ∧ (progOf stmtPrefix.normal).length = 1 := by
-  decide
-
-/-- `a b` (two statements) is printed `ab` in compact mode, one identifier: class "compact-adjacent-statements" -/
-theorem witness_compact_adjacent_statements :
-    (valid (parseProgram compactGlue.src 40)).isSome = true
-    ∧ (valid (parseProgram compactGlue.compact 40)).isSome = true
-    ∧ (progOf compactGlue.src).length = 2 ∧ (progOf compactGlue.compact).length = 1 := by
   decide
 
 def rightIsInfix : NList → Bool
